@@ -636,12 +636,22 @@ func search(e *env, seed uint64, n int, bins string) {
 				samples = append(samples, frame(genVideoSampleCenc(r, codec, b)))
 			}
 		}
+		// a video fragment mixing a sample without any protection range (a single empty NAL unit) with normal ones
+		mixed := false
+		if codec != 'u' && ns >= 2 && i%40 == 7 {
+			samples[r.Intn(ns)] = []byte{0, 0, 0, 0}
+			mixed = true
+		}
 		ivIn := genIV(r, r.Pick(8, 16))
 		key := r.Bytes(16, nil)
 		o := fragOpts{extraMoof: r.Pick(0, 0, 1, 2, 3), extraTraf: r.Pick(0, 1, 2, 3), moofBefore: r.Bool()}
 		wit := fmt.Sprintf("codec=%c scheme=%s key=%s iv=%s opts=%+v samples=%s", codec, scheme, hx.Hex(key), hx.Hex(ivIn), o, samplesField(samples))
 		fr := e.runFragment(codec, scheme, key, ivIn, samples, o, r)
 		evals++
+		if fr.class == "panic" && mixed {
+			fail("mp4.EncryptFragment", "encrypt-panic-mixed-subsamples", wit, "EncryptFragment panics (SencBox.calcSize indexes SubSamples out of range) on a video fragment in which one sample has no protection range and another has")
+			continue
+		}
 		if fr.class != "ok" {
 			fail("mp4.EncryptFragment", "encrypt-"+fr.class, wit, "EncryptFragment does not succeed on a well-formed clear fragment")
 			continue
